@@ -41,7 +41,7 @@ MObs(st) ==
    wl |-> [j \in 1..Len(st.wl) |-> WN(st, st.wl[j])], wll |-> [j \in 1..Len(st.wl) |-> WL(st, st.wl[j])],
    wn |-> [j \in 1..Len(st.wn) |-> st.wn[j].k],
    w |-> [jj \in 1..Len(DirSeq(st)) |-> LET i == DirSeq(st)[jj] IN
-            [n |-> WN(st, i), ln |-> WL(st, i), st |-> st.ws[i].st, np |-> st.ws[i].np, sing |-> st.ws[i].sing,
+            [n |-> WN(st, i), ln |-> WL(st, i), st |-> st.ws[i].st, np |-> st.ws[i].np, npbad |-> FALSE, sing |-> st.ws[i].sing,
              resp |-> st.ws[i].resp, G |-> st.ws[i].G * 100, W |-> st.ws[i].W * 100, ssig |-> st.ws[i].ssig,
              sch |-> st.ws[i].sch, od |-> st.ws[i].od, mage |-> 0, hup |-> st.ws[i].hup,
              pr |-> [j \in 1..Len(st.ws[i].pr) |->
@@ -160,6 +160,7 @@ Inv_C06 == Unexplained({"C06_reply", "C06_status", "C06_all"}) = {}
 Inv_C08 == Unexplained({"C08_done"}) = {}
 Inv_C09 == Unexplained({"C09_spawn", "C09_reap", "C09_live", "C09_startstop"}) = {}
 Inv_C10 == Unexplained({"C10_wedge", "C10_refuse", "C10_accept"}) = {}
+Inv_C11 == Unexplained({"C11_unchanged", "C10_refuse"}) = {}
 Inv_C13 == Unexplained({"C13_wid"}) = {}
 Inv_C14 == Unexplained({"C14_startgate", "C14_siggate", "C14_events"}) = {}
 Inv_C15 == Unexplained({"C15_dir", "C15_views", "C15_addrm"}) = {}
